@@ -237,10 +237,10 @@ func main() {
 			}
 			Infra string
 		}
-		names := []string{"inmem", "redis"}
-		outs := make([]out, 2)
-		errs := make([]error, 2)
-		doneCh := make(chan int, 2)
+		names := []string{"inmem", "redis", "conc"}
+		outs := make([]out, 3)
+		errs := make([]error, 3)
+		doneCh := make(chan int, 3)
 		for i, n := range names {
 			go func(i int, n string) {
 				cmd := exec.Command(exe, "-tier", run.Tier)
@@ -255,6 +255,7 @@ func main() {
 				doneCh <- i
 			}(i, n)
 		}
+		<-doneCh
 		<-doneCh
 		<-doneCh
 		var samples ev.Samples
@@ -283,8 +284,12 @@ func main() {
 		run.Finish(ev.Coverage{
 			"states": states, "transitions": trans, "traces_validated_against_impl": trans, "samples": samples.List,
 			"exhaustive": fix, "fixpoint": fix, "per_backend": per,
-			"rule": "per backend: BFS over all histories over keys a,b of writes (Create/Put/PutMany/CasByVersion) with expiry none/+10s/+1000s, clock steps +20s/+2000s (at most 3 per history) and every operation kind as first and later touch of an expired key (Get, GetMany, CasByVersion(current), Delete, Create, ListKeys, WaitForVersionChange observed for 2s of virtual time), to a fixpoint of (model state with remaining lifetimes, clock steps used); every transition replays the history on a fresh backend inside one execution of the controlled scheduler (virtual time); oracle: KV model that deletes a record at its expiration instant, full observable state + ListKeys compared after every operation",
+			"rule": "(conc) 2-3 concurrent waiters on one expiring record with cancellers on every proper subset, every schedule within P<=2: each waiter that was not cancelled ends with ErrNotExist after the expiration; (per backend) BFS over all histories over keys a,b of writes (Create/Put/PutMany/CasByVersion) with expiry none/+10s/+1000s, clock steps +20s/+2000s (at most 3 per history) and every operation kind as first and later touch of an expired key (Get, GetMany, CasByVersion(current), Delete, Create, ListKeys, WaitForVersionChange observed for 2s of virtual time), to a fixpoint of (model state with remaining lifetimes, clock steps used); every transition replays the history on a fresh backend inside one execution of the controlled scheduler (virtual time); oracle: KV model that deletes a record at its expiration instant, full observable state + ListKeys compared after every operation",
 		})
+		return
+	}
+	if be == "conc" {
+		concurrentWaiters(run)
 		return
 	}
 	// child: one backend
@@ -340,6 +345,101 @@ func main() {
 		fs = append(fs, fo{f.V.Sig, f.V.Detail, ps})
 	}
 	fmt.Fprintf(os.Stderr, "C06 backend %s: %d states, %d transitions, %.1fs\n", be, st.States, st.Transitions, time.Since(t0).Seconds())
+	b, _ := json.Marshal(map[string]any{"Stats": st, "Found": fs})
+	fmt.Println(string(b))
+}
+
+// concurrentWaiters: several waiters on one expiring record, some of them cancelled before the expiration,
+// nothing else touches the key. Every waiter that was not cancelled must end with ErrNotExist once the
+// expiration time has passed - whichever waiter registered first, whichever gave up. Every schedule within P<=2.
+func concurrentWaiters(run *ev.Run) {
+	fine := vsched.Mask(vsched.KLock, vsched.KChan, vsched.KEnv, vsched.KSleep)
+	st := bfs.Stats{Fixpoint: true}
+	type fo struct {
+		Sig, Det string
+		Path     []string
+	}
+	var fs []fo
+	for n := 2; n <= 3; n++ {
+		for mask := 0; mask < 1<<n-1; mask++ {
+			n, mask := n, mask
+			var problem string
+			scenario := func() {
+				problem = ""
+				be := kvh.NewInmem()
+				s := be.Fresh()
+				ctx := context.Background()
+				exp := vsched.Epoch0.Add(vsched.NowPeek() + short)
+				ver, err := s.Create(ctx, kvs.Record{Key: "a", Value: []byte("x"), ExpiresAt: &exp})
+				if err != nil {
+					panic(err)
+				}
+				res := make([]string, n)
+				done := make([]bool, n)
+				cancelled := make([]bool, n)
+				cancels := make([]context.CancelFunc, n)
+				for i := 0; i < n; i++ {
+					i := i
+					wctx, cancel := context.WithCancel(ctx)
+					cancels[i] = cancel
+					if mask&(1<<i) != 0 {
+						vsched.Pseudo(fmt.Sprintf("cancel%d", i), nil, func() { cancelled[i] = true; cancel(); vsched.Note("cancel %d", i) })
+					}
+					vsched.GoNamed(fmt.Sprintf("w%d", i), func() {
+						res[i] = kvh.ErrClass(s.WaitForVersionChange(wctx, "a", ver))
+						done[i] = true
+						vsched.Note("waiter %d -> %s", i, res[i])
+					})
+				}
+				vsched.Sleep(steps[0])
+				vsched.AwaitBlocked()
+				vsched.DropPseudos()
+				for i := 0; i < n; i++ {
+					if !done[i] && !cancelled[i] && problem == "" {
+						problem = fmt.Sprintf("%d waiters on one record that expired at +%v (cancellers on waiters %b): at +%v waiter %d is still blocked, it must have ended with ErrNotExist", n, short, mask, vsched.NowPeek(), i)
+					}
+					if done[i] && res[i] != "ErrNotExist" && !(cancelled[i] && res[i] == "Canceled") && problem == "" {
+						problem = fmt.Sprintf("waiter %d returned %s", i, res[i])
+					}
+				}
+				for i := range cancels {
+					cancels[i]()
+				}
+				vsched.WaitFor("all", func() bool {
+					for _, d := range done {
+						if !d {
+							return false
+						}
+					}
+					return true
+				})
+			}
+			e := &vsched.Explorer{Cfg: vsched.Config{P: 2, Preempt: fine, MaxSteps: 20000}, Scenario: scenario, StopAtFirst: true,
+				Check: func(x *vsched.Exec) (string, *vsched.Violation) {
+					if len(x.Panics) > 0 {
+						return "panic", &vsched.Violation{Sig: "inmem concurrent-waiters panic", Detail: x.Panics[0]}
+					}
+					if problem != "" {
+						return "v", &vsched.Violation{Sig: "inmem concurrent-waiters:blocked-after-expiry", Detail: problem + "\nnotes: " + strings.Join(x.Notes, " / ")}
+					}
+					if x.Outcome != vsched.Completed {
+						return "v", &vsched.Violation{Sig: "inmem concurrent-waiters:" + x.Outcome.String(), Detail: fmt.Sprint(x.Blocked)}
+					}
+					return "ok", nil
+				}}
+			e.Run()
+			if e.InfraErr != "" {
+				b, _ := json.Marshal(map[string]any{"Infra": e.InfraErr})
+				fmt.Println(string(b))
+				return
+			}
+			st.States += int(e.Stats.TreeNodes)
+			st.Transitions += e.Stats.Steps
+			if e.Found != nil {
+				fs = append(fs, fo{e.Found.Sig, e.Found.Detail, []string{fmt.Sprintf("waiters=%d cancel-mask=%b schedule=%v", n, mask, e.FoundPath)}})
+			}
+		}
+	}
 	b, _ := json.Marshal(map[string]any{"Stats": st, "Found": fs})
 	fmt.Println(string(b))
 }
